@@ -153,6 +153,21 @@ def wmSafeNoReset : Option Int → List (Elem Val) → Bool
   | w, .wm t :: rest => (match w with | some w => decide (w < t) | none => true) && wmSafeNoReset (some t) rest
   | w, _ :: rest => wmSafeNoReset w rest
 
+/-- the lax contract without the reset at `far` (lone manager): elements `≥`, watermarks `>` -/
+def wmSafeLaxNoReset : Option Int → List (Elem Val) → Bool
+  | _, [] => true
+  | w, .ts _ t :: rest => (match w with | some w => decide (w ≤ t) | none => true) && wmSafeLaxNoReset w rest
+  | w, .wm t :: rest => (match w with | some w => decide (w < t) | none => true) && wmSafeLaxNoReset (some t) rest
+  | w, _ :: rest => wmSafeLaxNoReset w rest
+
+/-- input classes: `strict` = watermark-safe (C06 contract); `lax` = only violated by elements
+    stamped exactly the last watermark (accepted by `assert!(ts >= last_watermark)`; the output
+    must still be watermark-safe, `etwin_preserves_wmsafe_lax`); `violation` = anything else -/
+def inputClass (opMode : Bool) (es : List (Elem Val)) : String :=
+  if (if opMode then wmSafeOk es else wmSafeNoReset none es) then "strict"
+  else if (if opMode then wmSafeLaxOk es else wmSafeLaxNoReset none es) then "lax"
+  else "violation"
+
 /-- all violations of watermark safety in an output stream: (stamp, last watermark, is a result) -/
 def wmViolations : Option Int → List (Elem Val) → List (Int × Int × Bool)
   | _, [] => []
@@ -210,9 +225,11 @@ def oracle (o : OracleIn) : List Failure :=
       [⟨s!"element {d.v} (ts {d.t}, not late: last watermark {d.lw}) is in no result"⟩]
      else [])
   -- (c) watermark safety of the output (given a watermark-safe input), fire bounds
-  let inSafe := if o.opMode then wmSafeOk o.es else wmSafeNoReset none o.es
+  -- (the code accepts `ts = last watermark`; the output must be watermark-safe for that lax
+  --  contract too; only a real contract violation of the input makes the clause inapplicable,
+  --  and such cases are tagged `in-contract-violation`)
   let c : List Failure :=
-    if !inSafe then [] else
+    if inputClass o.opMode o.es == "violation" then [] else
     let vs := wmViolations none o.stream
     (vs.map fun (t, w, isRes) =>
       ⟨if isRes then s!"wmsafe: result stamped {t} emitted after Watermark({w})" else s!"wmsafe: Watermark({t}) after Watermark({w})"⟩) ++
@@ -296,9 +313,11 @@ where
       let fs := oracle ⟨opMode, cfg, es, rs, stream⟩
       let orc := verdictOf fs
       let ds := inData es
-      let inSafe := if opMode then wmSafeOk es else wmSafeNoReset none es
+      let cls := inputClass opMode es
       { out, oracle := orc, nontrivial := rs.length ≥ 1 && ds.length ≥ 2,
-        tags := baseTags ++ [if inSafe then "in-wmsafe" else "in-not-wmsafe", s!"res{min rs.length 3}"] ++
+        tags := baseTags ++ [if cls == "strict" then "in-wmsafe" else if cls == "lax" then "in-lax-only" else "in-contract-violation",
+           s!"res{min rs.length 3}"] ++
+          (if ds.any (fun d => d.lw == some d.t) then ["ts=wm"] else []) ++
           (if ds.any (·.late) then ["late"] else []) ++
           -- boundary classes of the two fixed defects: an arrival earlier than an earlier one of
           -- its key (backward allocation), a result fired by a watermark equal to its end
